@@ -1,7 +1,7 @@
 #!/bin/sh
 # Run the pinned test-suite with the guard OFF and compare with BASELINE.json's stable_pass list.
 out=$(mktemp /tmp/vf_junit_XXXX.xml)
-cd /repo && env -u HOLOPY_VERIF /venv/bin/python -m pytest -ra -q -p no:cacheprovider --timeout=900 --continue-on-collection-errors --junitxml=$out >/tmp/vf_baseline.log 2>&1
+cd ${VF_REPO:-/repo} && env -u HOLOPY_VERIF /venv/bin/python -m pytest -ra -q -p no:cacheprovider --timeout=900 --continue-on-collection-errors --junitxml=$out >/tmp/vf_baseline.log 2>&1
 python3 - "$out" <<'PY'
 import json, sys, xml.etree.ElementTree as ET
 base = set(json.load(open('/root/.vp/BASELINE.json'))['stable_pass'])
